@@ -1171,6 +1171,162 @@ def gen_natives(repo, out):
 # constants.rs, vm/ops.rs, fiber  ->  Gen/Limits.lean
 
 
+OVERFLOW_RETURN = (r"\s*return\s+self\.runtime_error_from_str\(\s*self\.builtin\.errors\.runtime\s*,\s*\"_*\"\s*,?\s*\)\s*;\s*")
+_CN_GUARD = r"\bif\s+self\.fiber\.frames\(\)\.len\(\)\s*(?P<op>==|>=|>|<=|<|!=)\s*(?P<bound>\w+)\s*\{"
+_CN_EVENT = re.compile(
+    r"(?P<guard>" + _CN_GUARD + r")"
+    r"|(?P<push_root>\b(?:self|hooks)\s*\.\s*push_root\s*\()"
+    r"|(?P<pop_roots>\b(?:self|hooks)\s*\.\s*pop_roots\s*\(\s*(?P<n>\w+)\s*\))"
+    r"|(?P<push_frame>\bself\s*\.\s*push_frame\s*\()"
+    r"|(?P<pop_frame>\bself\s*\.\s*pop_frame\s*\(\s*\))"
+    r"|(?P<call>\bnative\s*\.\s*call\s*\()"
+    r"|(?P<assert_roots>\bassert_roots\s*\()"
+    r"|(?P<ret>\breturn\b)")
+_CN_ARMS = [("Ok", r"Call::Ok\(\s*\w+\s*\)\s*=>"), ("Err", r"Call::Err\(\s*LyError::Err\(\s*\w+\s*\)\s*\)\s*=>"),
+            ("Exit", r"Call::Err\(\s*LyError::Exit\(\s*\w+\s*\)\s*\)\s*=>")]
+
+
+def _cn_events(text):
+    """root / frame events of a stretch of call_native in source order: [(token, match)]; a frame-limit test whose block is
+    exactly the `Stack overflow.` return is the single token `guard <op> <bound>` (its `return` is consumed), any other
+    frame-limit test is written out with the events of its block"""
+    out = []
+    i = 0
+    while True:
+        m = _CN_EVENT.search(text, i)
+        if not m:
+            return out
+        i = m.end()
+        if m.group("guard"):
+            j = match_close(text, m.end() - 1)
+            blk = text[m.end():j]
+            head = "guard %s %s" % (m.group("op"), m.group("bound"))
+            if re.fullmatch(OVERFLOW_RETURN, blk):
+                out.append((head, m))
+            else:
+                inner = []
+                for st in split_top(blk, ";"):
+                    evs = [t for t, _ in _cn_events(st)]
+                    inner += evs if evs else ([norm(st)] if norm(st) else [])
+                out.append((head + " { " + "; ".join(inner) + " }", m))
+            i = j + 1
+        elif m.group("pop_roots"):
+            out.append(("pop_roots %s" % m.group("n"), m))
+        elif m.group("ret"):
+            out.append(("return", m))
+        else:
+            out.append((m.lastgroup, m))
+
+
+def _roots(tokens):
+    """(temporary roots pushed, popped) by a list of event tokens; None for a `pop_roots` whose count is not a literal"""
+    pushed = sum(1 for t in tokens if t == "push_root")
+    popped = 0
+    for t in tokens:
+        if t.startswith("pop_roots "):
+            if not t[10:].isdigit():
+                raise TranslateError("call_native: pop_roots(%s): count is not a literal" % t[10:])
+            popped += int(t[10:])
+    return pushed, popped
+
+
+def call_native_roots(cn):
+    """`Vm::call_native` (strings blanked): the temporary roots (the stub `Fun` is rooted across `push_frame`) and the frames on
+    every way out of the function.
+    returns (pre, post, exits):
+      pre   events of the arm `NativeEnvironment::Normal` in front of `native.call(..)`, in source order
+      post  per arm of the `match` on the native's result, per environment: (environment, arm, events)
+      exits per way out: (environment, exit, roots pushed textually before it, roots popped before it)
+    The function is straight-line apart from blocks that return (the frame-limit test) and the final `match`: a root pushed or
+    popped inside any other nested block is not understood."""
+    mm = re.search(r"match\s+native\.environment\(\)\s*\{", cn)
+    if not mm:
+        raise TranslateError("call_native: `match native.environment()` not found")
+    prelude = cn[:mm.start()]
+    envs = cn[mm.end():match_close(cn, mm.end() - 1)]
+    sl = re.search(r"NativeEnvironment::StackLess\s*=>\s*match\s+native\.call\([^;{]*\)\s*\{", envs)
+    nm = re.search(r"NativeEnvironment::Normal\s*=>\s*\{", envs)
+    if not sl or not nm:
+        raise TranslateError("call_native: the arms NativeEnvironment::StackLess => match native.call(..) {..} / Normal => {..} changed shape")
+    stackless = envs[sl.end():match_close(envs, sl.end() - 1)]
+    normal = envs[nm.end():match_close(envs, nm.end() - 1)]
+    rm = re.search(r"match\s+result\s*\{", normal)
+    if not rm or len(re.findall(r"\bnative\s*\.\s*call\s*\(", normal)) != 1 or normal.find("native.call(") > rm.start():
+        raise TranslateError("call_native (Normal): `let result = native.call(..); .. match result {..}` changed shape")
+    straight = normal[:rm.start()]
+    result_arms = normal[rm.end():match_close(normal, rm.end() - 1)]
+    if normal[match_close(normal, rm.end() - 1) + 1:].strip():
+        raise TranslateError("call_native (Normal): code after `match result {..}`")
+
+    def no_nested_roots(text, what):
+        # blocks other than the frame-limit tests (consumed by _cn_events) must not touch the roots or the frames
+        t = text
+        while True:
+            g = re.search(_CN_GUARD, t)
+            if not g:
+                break
+            t = t[:g.start()] + t[match_close(t, g.end() - 1) + 1:]
+        depth = 0
+        for k, c in enumerate(t):
+            if c == "{":
+                depth += 1
+            elif c == "}":
+                depth -= 1
+            elif depth > 0 and c in "sh" and re.match(r"(?:self|hooks)\s*\.\s*(?:push_root|pop_roots|push_frame|pop_frame)\s*\(", t[k:]):
+                raise TranslateError("call_native (%s): a root or a frame is pushed / popped inside a nested block" % what)
+
+    no_nested_roots(straight, "Normal")
+    no_nested_roots(prelude, "prelude")
+
+    def arms_of(text, what):
+        out = []
+        for name, rx in _CN_ARMS:
+            ms = list(re.finditer(rx, text))
+            if len(ms) != 1:
+                raise TranslateError("call_native (%s): expected exactly one arm %s" % (what, name))
+            rest = text[ms[0].end():]
+            k = len(rest) - len(rest.lstrip())
+            if rest[k:k + 1] == "{":
+                body = rest[k + 1:match_close(rest, k)]
+            else:
+                body = split_top(rest, ",")[0]
+            out.append((name, [t for t, _ in _cn_events(body)]))
+        return out
+
+    exits = []
+    pre_tokens = [t for t, _ in _cn_events(prelude)]
+    k = 0
+    for idx, t in enumerate(pre_tokens):
+        if t == "return":
+            exits.append(("", "return %d" % k) + _roots(pre_tokens[:idx]))
+            k += 1
+    before = [t for t in pre_tokens if t != "return"]
+    post = []
+    for name, toks in arms_of(stackless, "StackLess"):
+        post.append(("StackLess", name, toks))
+        exits.append(("StackLess", name) + _roots(before + toks))
+    ev = _cn_events(straight)
+    toks = [t for t, _ in ev]
+    if "call" not in toks:
+        raise TranslateError("call_native (Normal): native.call(..) sits inside a frame-limit test")
+    for idx, t in enumerate(toks):
+        if t.startswith("guard "):
+            # the guarded block returns: the roots live there are the ones pushed in front of the test plus its own
+            inner = [x for x in re.sub(r"^guard \S+ \S+( \{ (.*) \})?$", r"\2", t).split("; ") if x]
+            if inner and "return" not in inner:
+                raise TranslateError("call_native (Normal): a frame-limit test whose block does not return")
+            inner = inner[:inner.index("return")] if inner else inner
+            exits.append(("Normal", "frame-limit test %d" % sum(1 for x in toks[:idx] if x.startswith("guard "))) + _roots(before + toks[:idx] + inner))
+        elif t == "return":
+            raise TranslateError("call_native (Normal): a `return` outside a frame-limit test")
+    pre = toks[:toks.index("call")]
+    mid = toks[toks.index("call") + 1:]
+    for name, atoks in arms_of(result_arms, "Normal"):
+        post.append(("Normal", name, mid + atoks))
+        exits.append(("Normal", name) + _roots(before + toks + atoks))
+    return pre, post, exits
+
+
 def gen_limits(repo, out):
     rel = "laythe_vm/src/constants.rs"
     src = strip_comments(read(repo, rel))
@@ -1222,6 +1378,7 @@ def gen_limits(repo, out):
         raise TranslateError("call_native: a frame is pushed outside the arm NativeEnvironment::Normal")
     g = guard_before_push(normal, "call_native (Normal)")
     guards.append(("call_native", g[0] if g else "", g[1] if g else ""))
+    cn_pre, cn_post, cn_exits = call_native_roots(cn)
     for fn in ("call_closure", "call"):
         body = fn_body(ops, r"unsafe fn %s\s*\(\s*&mut self\s*,\s*\w+\s*:\s*ObjRef<\w+>\s*,\s*arg_count\s*:\s*u8\s*\)\s*->\s*ExecutionSignal\s*" % fn, fn)
         g = guard_before_push(strip_strings(body), fn)
@@ -1283,6 +1440,18 @@ def gen_limits(repo, out):
          "def frameGuards : List (String × String × String) := [" + ", ".join("(%s, %s, %s)" % (lean_str(a), lean_str(b), lean_str(c)) for a, b, c in guards) + "]\n",
          "/-- `call_native` pushes its stub frame only in the arm `NativeEnvironment::Normal`: (number of push_frame calls, a frame-limit test precedes it) -/",
          "def nativeStubPush : Nat × Bool := (%d, %s)\n" % (native_push, "true" if guards[0][1] else "false"),
+         "/-- `call_native`, arm `NativeEnvironment::Normal`: the frame-limit tests and the root / frame events in front of `native.call(..)`,\n"
+         "    in source order; `guard <op> <bound>` = a test whose block is exactly the return of the `Stack overflow.` error, any other\n"
+         "    frame-limit test is written out with the statements of its block -/",
+         "def callNativeNormalPre : List String := [" + ", ".join(lean_str(x) for x in cn_pre) + "]\n",
+         "/-- `call_native`: per environment and per arm of the `match` on the native's result, the root / frame events between\n"
+         "    `native.call(..)` and the end of the arm -/",
+         "def callNativeResultArms : List (String × String × List String) := [" +
+         ", ".join("(%s, %s, [%s])" % (lean_str(a), lean_str(b), ", ".join(lean_str(x) for x in c)) for a, b, c in cn_post) + "]\n",
+         "/-- `call_native`: every way out of the function — (environment, exit, temporary roots pushed textually before it, popped before it);\n"
+         "    the function is straight-line apart from the blocks that return and the final `match` (checked by the translator) -/",
+         "def callNativeRootExits : List (String × String × Nat × Nat) := [" +
+         ", ".join("(%s, %s, %d, %d)" % (lean_str(a), lean_str(b), c, d) for a, b, c, d in cn_exits) + "]\n",
          "/-- every function of laythe_vm (tests excluded) that pushes a call frame, as `file:function` -/",
          "def pushFrameSites : List String := [" + ", ".join(lean_str(x) for x in push_sites) + "]\n",
          "/-- `MAX_CHANNEL_CAPACITY` -/", "def maxChannelCapacity : Nat := %d\n" % max_chan,
